@@ -203,7 +203,16 @@ def adopt(ctx, rep, rule):
                               body.loc(line), obligation=True)
         if ws and goals:
             cut = {(w[0], s) for w in ws for s in body.blocks[w[0]].succs()}
-            rep.check(rule, "%s|%s-on-every-accept" % (key, fld), cfg.must_pass(body, [0], goals, cut),
+            # a goal block in which the write stands before the Some(..) is itself behind the write
+            wblocks = {w[0]: w[2] for w in ws}
+            goals_ = []
+            for g_ in goals:
+                stmts = body.blocks[g_].stmts
+                wi = next((i for i, s_ in enumerate(stmts) if s_ is wblocks.get(g_)), None)
+                si = next((i for i, s_ in enumerate(stmts) if s_["k"] == "assign" and not s_["place"]["p"] and s_["place"]["l"] == 0 and s_["rv"]["k"] == "agg"), None)
+                if not (wi is not None and si is not None and wi < si):
+                    goals_.append(g_)
+            rep.check(rule, "%s|%s-on-every-accept" % (key, fld), not goals_ or cfg.must_pass(body, [0], goals_, cut),
                       "every accepted message updates self.%s" % fld, "a message can be accepted without updating self.%s" % fld, body.loc(),
                       obligation=True)
     # engine id: adopted once, only while unknown
